@@ -6,6 +6,8 @@ from mc.core import bits
 from mc.ref import units as R
 
 PID = 'C07'
+# thread bodies (defined with engine E4, mc/checks/c10_sched.py) that exercise this property's code; explored after the parts below
+SCHED_SETS = [('bare||fire', 'call')]
 LEVEL = 'model_checking'
 ENGINE = 'E1+E2'
 TECHNIQUE = 'deviation-bounded exhaustive enumeration of preferred-unit configurations (all single-slot and, thorough, all two-slot deviations, presets, scrambled) with a bit-for-bit differential oracle against the default configuration; all set/compute histories over 4 configurations; full product parameter x value x configuration for bare-number equivalence'
@@ -261,7 +263,7 @@ def params():
 
 
 NO_ZERO = {'basicConfig.max_calc_step_size', 'BCPoint.V', 'Sight.scale_factor', 'Sight.h_click', 'Sight.v_click', 'fire.step', 'Sight.target_distance'}
-VALUES = [0, 1, -1, 2.5, 100]
+VALUES = [0, 1, -1, 2.5, 100, 59, 15]      # 59 and 15: the numbers of the fixtures' 15 C baseline in deg F (raw) and deg C - a bare number that happens to equal a stored number means nothing special
 
 
 def bare(cell):
